@@ -43,3 +43,13 @@ Theorem C11_number_trailing_blank : forall r v rest, r_stack r = v :: rest ->
   snd (do_print r) = Ok (EvPrint (fmt_val v ++ [c_space])).
 Proof. exact print_number_trailing_blank. Qed.
 Print Assumptions C11_number_trailing_blank.
+
+Theorem C11_number_leading_sign : forall v, (match v with VInt _ | VSng _ | VDbl _ => True | _ => False end) ->
+  exists c rest, fmt_val v = c :: rest /\ (c = 32%N \/ c = 45%N).
+Proof. exact number_leading_sign. Qed.
+Print Assumptions C11_number_leading_sign.
+
+Theorem C11_integer_format : forall n, 0 <= n ->
+  fmt_val (VInt n) = 32%N :: dec_of_N (Z.to_N n) /\ parse_udec (dec_of_N (Z.to_N n)) = Some (Z.to_N n).
+Proof. exact integer_format. Qed.
+Print Assumptions C11_integer_format.
